@@ -1330,3 +1330,38 @@ Proof.
   destruct (div_mod_lt d r Hd Hr), (div_mod_lt d c Hd Hcc). unfold choiF.
   apply choi4_formula; auto.
 Qed.
+
+(* ============================ the textbook form of the Lindblad generator ============================ *)
+Lemma csumn_lin4 n (z1 z2 : Cx) (a b c e : nat -> Cx) :
+  csumn' n (fun k => cadd' (cmul' z1 (csub' (a k) (b k))) (cmul' z2 (cadd' (c k) (e k))))
+  = cadd' (cmul' z1 (csub' (csumn' n a) (csumn' n b))) (cmul' z2 (cadd' (csumn' n c) (csumn' n e))).
+Proof. induction n; simpl. ring. rewrite IHn. ring. Qed.
+
+Section LindbladStd.
+Variable d m : nat.
+Variable gam : nat -> R.
+Variable Lk : nat -> fmat.
+Variable H : fmat.
+(* M = sum_k gamma_k L_k^dagger L_k,  G = -i H - M/2 *)
+Definition Msum : fmat := flin m (fun k => (gam k, 0)) (fun k => fmul d (fadj (Lk k)) (Lk k)).
+Definition Gstd : fmat := fun i j => cadd' (cmul' (0, -1) (H i j)) (cmul' (- (1 / 2), 0) (Msum i j)).
+
+Lemma Msum_herm : fherm d Msum.
+Proof.
+  intros i j _ _. unfold fadj, Msum, flin. rewrite csumn_conj. apply csumn_ext. intros k _.
+  rewrite cconj_mul. f_equal. cring. unfold fmul. rewrite csumn_conj. apply csumn_ext. intros l _.
+  unfold fadj. rewrite cconj_mul, cconj_invol. ring.
+Qed.
+
+(* G X + X G^dagger = -i [H, X] - 1/2 {M, X} *)
+Theorem lindblad_standard_form X : fherm d H ->
+  feq d (fadd (fmul d Gstd X) (fmul d X (fadj Gstd)))
+        (fun i j => cadd' (cmul' (0, -1) (csub' (fmul d H X i j) (fmul d X H i j)))
+                          (cmul' (- (1 / 2), 0) (cadd' (fmul d Msum X i j) (fmul d X Msum i j)))).
+Proof.
+  intros HH i j Hi Hj. unfold fadd, fmul at 1 2 3 4 5 6. rewrite <- csumn_lin4, <- csumn_add.
+  apply csumn_ext. intros k Hk. unfold fadj, Gstd.
+  pose proof (HH k j Hk Hj) as E1. pose proof (Msum_herm k j Hk Hj) as E2. unfold fadj in E1, E2.
+  rewrite cconj_add, !cconj_mul, E1, E2. cring.
+Qed.
+End LindbladStd.
